@@ -44,10 +44,11 @@ where
 
     // Directly load screen memory from the asset
     let memory = emulator.controller.memory.ram_page_data_mut(bank);
-    asset.read_exact(&mut memory[..PRIMARY_SCREEN_MEMORY_SIZE])?;
+    let read_result = asset.read_exact(&mut memory[..PRIMARY_SCREEN_MEMORY_SIZE]);
 
-    // Update screen
+    // Update screen, failed read may have already replaced a part of it
     emulator.controller.refresh_memory_dependent_devices();
+    read_result?;
 
     Ok(())
 }
